@@ -657,5 +657,56 @@ theorem withCount_spec (C : Consistent hash eq) {counter : Table K Nat} (hI : In
     rw [h4, hnew]
     cases C.e k' k <;> simp
 
+/-! ### `keys` / `values` / `update(m, Mapping)`: helpers -/
+
+/-- writing a list of pairwise inequivalent entries: an entry of the list wins, otherwise the old answer stays -/
+theorem writeAll_pairwise (C : Consistent hash eq) (l : List (K × V))
+    (hp : l.Pairwise (fun x y => C.e x.1 y.1 = false)) (f : K → Option V) (k : K) :
+    writeAll C f l k = match findE C.e k l with | some v => some v | none => f k := by
+  induction l generalizing f with
+  | nil => simp [writeAll, findE]
+  | cons kv rest ih =>
+    obtain ⟨k0, v0⟩ := kv
+    rw [List.pairwise_cons] at hp
+    simp only [writeAll, findE]
+    rw [ih hp.2]
+    cases hk : C.e k k0 with
+    | true =>
+      have : findE C.e k rest = none := findE_none_of_equiv (C := C) (fun x hx => hp.1 x hx) hk
+      simp [this]
+    | false => simp
+
+/-- in a list of pairwise inequivalent entries every entry is found under its own key -/
+theorem findE_self_of_mem (C : Consistent hash eq) (l : List (K × V))
+    (hp : l.Pairwise (fun x y => C.e x.1 y.1 = false)) (kv : K × V) (h : kv ∈ l) :
+    findE C.e kv.1 l = some kv.2 := by
+  induction l with
+  | nil => cases h
+  | cons x rest ih =>
+    rw [List.pairwise_cons] at hp
+    rcases List.mem_cons.1 h with rfl | h'
+    · simp [findE, C.refl]
+    · obtain ⟨k0, v0⟩ := x
+      simp only [findE]
+      have : C.e kv.1 k0 = false := by
+        have h1 := hp.1 kv h'
+        cases h2 : C.e kv.1 k0 with
+        | false => rfl
+        | true => rw [C.symm _ _ h2] at h1; cases h1
+      simp [this, ih hp.2 h']
+
+/-- a key is found exactly when an equivalent key is stored -/
+theorem findE_isSome_iff (e : K → K → Bool) (k : K) (l : List (K × V)) :
+    (findE e k l).isSome = true ↔ ∃ x ∈ l, e k x.1 = true := by
+  induction l with
+  | nil => simp [findE]
+  | cons x rest ih =>
+    obtain ⟨k0, v0⟩ := x
+    simp only [findE]
+    cases hk : e k k0 with
+    | true => simp [hk]
+    | false => simp [hk, ih]
+
+
 end
 end XrayModel.HM
